@@ -80,3 +80,20 @@ def register(w):
         return z3.BoolVal(ok)
 
     w.add_contract(Contract(f"{M}:<module>.layout_perms", kind="lemma", ensures=[("mutually_inverse_and_nhwc_to_nchw", lemma_perms)], props=["C12"]))
+
+    # ---- bounded obligation (never counted as proved): a listed known finding (D41), kept so that it is re-derived on every run
+    def bounded_complex(world, c, out):
+        import time
+        from pyvc.run import run_witness
+        t0 = time.time()
+        holds, detail = run_witness("D41", timeout=900)
+        d = {"oid": f"{M}:_LayoutAdapter.bind_output#bounded:a_complex_output_listed_in_outputs_as_nchw_is_rejected_or_the_nchw_view_of_the_plain_export", "kind": "bounded",
+             "status": "discharged" if holds else ("refuted" if holds is False else "unknown"), "backend": "enumerated", "time": time.time() - t0, "instances": 1, "trivial": 0,
+             "bounded": "one program: lax.complex(x, 2x) on x[2,5,7,3] with outputs_as_nchw=[0]",
+             "note": f"the contract of bind_output speaks about the abstract value's rank; complex outputs are carried as real tensors with a trailing pair axis, which the model of the context does not represent; {detail}"[:500]}
+        if holds is False:
+            d.update(args={"witness": "D41"}, replay={"reproduced": True, "detail": detail}, formula="", model=detail)
+        out["obls"].append(d)
+        out["paths"], out["time"] = 1, time.time() - t0
+        return out
+    w.add_contract(Contract(f"{M}:<bounded-complex-nchw-output>", kind="custom", custom=bounded_complex, props=["C12"], witnesses=["D41"]))
